@@ -179,8 +179,24 @@ class MiniEval:
                 left = right
             return True
         if isinstance(e, ast.Call) and norm(e.func) in self.env and callable(self.env[norm(e.func)]):
-            args_ = [self.ev(a) for a in e.args]
-            kws_ = {k.arg: self.ev(k.value) for k in e.keywords if k.arg is not None}
+            args_ = []
+            for a in e.args:
+                if isinstance(a, ast.Starred):
+                    sv = self.ev(a.value)
+                    if not isinstance(sv, (tuple, list)):
+                        raise _Fault('TypeError')
+                    args_.extend(sv)
+                else:
+                    args_.append(self.ev(a))
+            kws_ = {}
+            for k in e.keywords:
+                if k.arg is None:
+                    dv = self.ev(k.value)
+                    if not isinstance(dv, dict):
+                        raise _Fault('TypeError')
+                    kws_.update(dv)
+                else:
+                    kws_[k.arg] = self.ev(k.value)
             try:
                 return self.env[norm(e.func)](*args_, **kws_)
             except (_Ret, _Raised, _Fault, _Break, _Continue, AnalysisError):
